@@ -14,7 +14,7 @@ def run(ctx):
     st.update(common.run_subjects(ctx, "C18", exs, [dict(subject="minblock", cfg=c, seed=ctx.seed, nops=2000 if ctx.thorough else 100)
                                                      for c in ("rwdi", "dbg")], use_driver=False))
     st.update(subjects.run(ctx, "C18", ["pool-node-fixed", "pool-array-growing", "pool-small-growing", "coll-node-log2-growing", "coll-small-identity-fixed",
-                                        "stack-growing", "stack-fixed"], ["rwdi", "dbg"], 12 if ctx.thorough else 3, 100))
+                                        "stack-growing", "stack-fixed", "iter2", "iter3", "iter5", "iter3-static"], ["rwdi", "dbg"], 12 if ctx.thorough else 3, 100))
     ctx.coverage["rule"] = ("(1) grid on the real pools: node sizes 1..96 (quick) / 1..512 (thorough) x node counts 1..700 / 1..2000 incl. the multiples "
                             "of 255 +-1, x node/array/small pool: a pool constructed with min_block_size(ns,n) on a fixed block serves >= n nodes, "
                             "capacity_left drops by node_size per allocation and returns to its initial value; memory_stack / memory_arena constructed with "
